@@ -11,7 +11,12 @@ use serde_json::{json, Value};
 pub fn make_history(r: &mut Sm, idx: usize) -> History {
     let wrap = ALL_WRAPS[idx % 6];
     let planner = ALL_PLANNERS[(idx / 6) % 4];
-    let spec = gen_spec(r, wrap, &GenOpts { nonconvex: false, fracs: true, odd_weights: true, max_dim: 3 });
+    let mut spec = gen_spec(r, wrap, &GenOpts { nonconvex: false, fracs: true, odd_weights: true, max_dim: 3 });
+    // now and then a narrow rotation cone (below 0.1 rad): expensive to sample by rejection, which
+    // is exactly why implementations grow special paths for it
+    if wrap == crate::spec::Wrap::So3 && r.bool(0.04) {
+        spec.comps[0].kind = crate::spec::CK::So3 { bounds: Some((r.quat(), 0.09)) };
+    }
     let hosts = [Hostility::Plain, Hostility::Free, Hostility::GoalOverlap, Hostility::GoalInvalid];
     let h1 = *r.pick(&hosts);
     let h2 = *r.pick(&hosts);
